@@ -9,15 +9,20 @@ class TxSpec(Spec):
     shrink_groups = (('nsteps', 'stmt_kind', ()), ('nsteps_long', 'stmt_kind', ()), ('nsteps_deep', 'stmt_kind', ()))
     wall_cap = {'quick': 1200, 'thorough': 7200}
     strata = {
-        'quick': [('core', 10), ('nofault', 5), ('deep', 4), ('exotic', 2), ('pooled', 1), ('pooled_nofault', 1)],
-        'thorough': [('core', 10), ('nofault', 5), ('deep', 4), ('exotic', 2), ('pooled', 2), ('pooled_nofault', 1)],
+        'quick': [('core', 9), ('nofault', 4), ('deep', 4), ('migration', 4), ('migration_nofault', 2), ('exotic', 2),
+                  ('refusal', 1), ('pooled', 1), ('pooled_nofault', 1)],
+        'thorough': [('core', 9), ('nofault', 4), ('deep', 4), ('migration', 4), ('migration_nofault', 2), ('exotic', 2),
+                     ('refusal', 1), ('pooled', 2), ('pooled_nofault', 1)],
     }
     runs = {'quick': 300000, 'thorough': 5000000}
-    observe_only_strata = ('exotic',)
+    observe_only_strata = ('exotic', 'refusal')
     components = {
         'real': ['edb/server/compiler/dbstate.py: Transaction, CompilerConnectionState (incl. __getstate__/__setstate__, sync_tx, sync_to_savepoint)',
                  'edb/server/compiler/compiler.py: Compiler.compile, compile_in_tx, _try_compile_rollback, compile(), _try_compile, _try_compile_ast, '
                  '_compile_dispatch_ql, _compile_ql_transaction, _compile_ql_sess_state, _make_query_unit, _check_force_database_error, _get_config_val',
+                 'edb/server/compiler/ddl.py: compile_and_apply_ddl_stmt / _compile_and_apply_ddl_stmt (incl. the log-DDL-as-migration wrapping and the '
+                 'migration-block branch), compile_dispatch_ql_migration, _start_migration, _populate_migration, _commit_migration, _abort_migration '
+                 '(above a stand-in for the schema layer and the SQL generation)',
                  'edb.edgeql.ast / qltypes, edb.errors, edb/server/compiler/enums.py'],
         'stub': tx_island.STUBS,
         'model': ['server side: transcription of dbview.pyx (start, on_success, on_error, declare_savepoint, rollback_tx_to_savepoint, abort_tx, '
@@ -27,14 +32,20 @@ class TxSpec(Spec):
                           'compiler pool (pool.py FixedPool / SimpleAdaptivePool, queue.py, amsg.py hub) to REAL worker.py instances '
                           '(1-3 simulated processes, real worker_proc.worker() loop) running the real compiler transaction code; worker '
                           'crashes, slow workers, template restarts; rpc.CompilationRequest (de)serialisation is an in-process table'],
-        'not_covered': ['migration blocks (START/COMMIT/ABORT MIGRATION) driven from compiler/ddl.py', 'SQL-protocol transaction state',
-                        'execution of accepted multi-statement scripts (implicit transactions)', 'the server-side compiled-query cache'],
+        'not_covered': ['MIGRATION REWRITE blocks, DESCRIBE CURRENT MIGRATION / ALTER CURRENT MIGRATION REJECT PROPOSED, migration commands inside scripts',
+                        'the migration log itself (parent checks): get_last_migration() is always None', 'SQL-protocol transaction state',
+                        'the server-side compiled-query cache'],
     }
     rule = ('one run = one seeded history of 3-40 client messages (START/COMMIT/ROLLBACK, DECLARE/RELEASE/ROLLBACK TO SAVEPOINT a|b, DDL adding or '
             'dropping module m1-m3, SET ALIAS / SET MODULE / RESET ALIAS, CONFIGURE SESSION, queries, scripts containing transaction control) with '
             'compile-time rejections and execution-time failures placed by the tape, the state blob routed either as the same live object or through '
             'pickle; oracles T1 (what a query is compiled against), T2 (outcome equivalence with PostgreSQL semantics), T3 (unit fields), T4 (baseline '
-            'after COMMIT/ROLLBACK), T5 (sync_tx finds every position the server reports); non-trivial = at least one message inside a transaction '
+            'after COMMIT/ROLLBACK), T5 (sync_tx finds every position the server reports); strata migration / migration_nofault add START MIGRATION TO '
+            '<target>, DDL inside the block, POPULATE / COMMIT (also rejected when the generated CREATE MIGRATION is applied, also failing in the backend) / '
+            'ABORT MIGRATION (also in an aborted transaction), started outside or inside a transaction block, mixed with everything above: the model '
+            'treats the block as an overlay none of whose DDL has reached the backend; the outcome of the migration commands themselves is only '
+            'observed (the property does not state it), T1-T5 apply to everything else; stratum deep = 10-40 messages inside one transaction; '
+            'stratum refusal (observe-only) = a compiled statement refused by the server before execution; non-trivial = at least one message inside a transaction '
             'block; distinct = distinct digests of the (statement, argument, outcome, position) sequence')
     assumptions = [
         'the server half (dbview.pyx / execute.pyx / binary.pyx) is a transcription, not the real Cython code',
@@ -58,6 +69,7 @@ SPEC.quick_mutants = []
 
 DS = 'edb/server/compiler/dbstate.py'
 CP = 'edb/server/compiler/compiler.py'
+DD = 'edb/server/compiler/ddl.py'
 
 MUTANTS = [
     {'name': 'commit_publishes_initial_state',
@@ -175,8 +187,51 @@ MUTANTS = [
             global_schema=global_schema if self._implicit else self._current.global_schema,
         )
 """)]},
+    # ---- migration blocks (compiler/ddl.py is loaded for real) ----
+    {'name': 'abort_migration_does_not_restore_the_schema', 'strata': ['migration', 'migration_nofault'],
+     'patches': [(DD, """    if mstate.initial_savepoint:
+        current_tx.abort_migration(mstate.initial_savepoint)
+        sql = NIL_QUERY
+        tx_action = None
+    else:
+        tx_cmd = qlast.RollbackTransaction()
+        tx_query = compiler._compile_ql_transaction(ctx, tx_cmd)
+        sql = tx_query.sql
+        tx_action = tx_query.action
+
+    current_tx.update_migration_state(None)
+    return dbstate.MigrationControlQuery(""", """    if mstate.initial_savepoint:
+        sql = NIL_QUERY
+        tx_action = None
+    else:
+        tx_cmd = qlast.RollbackTransaction()
+        tx_query = compiler._compile_ql_transaction(ctx, tx_cmd)
+        sql = tx_query.sql
+        tx_action = tx_query.action
+
+    current_tx.update_migration_state(None)
+    return dbstate.MigrationControlQuery(""")]},
+    {'name': 'migration_savepoint_named_like_a_user_savepoint', 'strata': ['migration', 'migration_nofault'],
+     'patches': [(DS, """        name = str(uuid.uuid4())
+        self._declare_savepoint(name)""", """        name = 'a'
+        self._declare_savepoint(name)""")]},
+    {'name': 'ddl_in_migration_block_not_recorded', 'strata': ['migration', 'migration_nofault'],
+     'patches': [(DD, """        mstate = mstate._replace(
+            accepted_cmds=mstate.accepted_cmds + (stmt,),
+        )
+
+        last_proposed = mstate.last_proposed""", """        last_proposed = mstate.last_proposed""")]},
+    {'name': 'abort_migration_unit_not_flagged', 'strata': ['migration', 'migration_nofault'],
+     'patches': [(CP, """        elif comp.action == dbstate.MigrationAction.ABORT:
+            unit.tx_abort_migration = True""", """        elif comp.action == dbstate.MigrationAction.ABORT:
+            pass""")]},
+    {'name': 'commit_migration_keeps_the_block_open', 'strata': ['migration', 'migration_nofault'],
+     'patches': [(DD, """    current_tx.update_schema(mstate.initial_schema)
+    current_tx.update_migration_state(None)
+""", """    current_tx.update_schema(mstate.initial_schema)
+""", 0)]},
 ]
 SPEC.mutants = MUTANTS
 SPEC.quick_mutants = ['commit_publishes_initial_state', 'savepoint_snapshots_initial_state',
                       'commit_allowed_outside_block', 'rollback_to_does_not_restore_and_no_resync',
-                      'pickled_state_loses_savepoint_log']
+                      'pickled_state_loses_savepoint_log', 'abort_migration_does_not_restore_the_schema']
